@@ -7,6 +7,8 @@ mod c11;
 mod live;
 mod c12;
 mod c13;
+mod c14;
+mod tiny_elf;
 mod c15;
 mod c16;
 mod c17;
@@ -86,6 +88,7 @@ fn main() {
         ("gen", "C07") => c01::generate("C07", seed, &tier, &mut out),
         ("gen", "C18") => c01::generate("C18", seed, &tier, &mut out),
         ("gen", "C03") => c03::generate(seed, &tier, &mut out),
+        ("gen", "C14") => c14::generate(seed, &tier, &mut out),
         ("gen", "C11") => c11::generate(seed, &tier, &mut out),
         ("gen", "C17") => c17::generate(seed, &tier, &mut out),
         ("gen", "C19") => c19::generate(seed, &tier, &mut out),
